@@ -353,7 +353,8 @@ def run_infinite(case, npz):
     rec.run('to_TermList', ttl)
     # product state with period L
     vecs = []
-    for s in sites:
+    psi_sites = [sites[0]] * case.get('psi_L', L)
+    for s in psi_sites:
         if case['site'].get('conserve') is None:
             v = rng.normal(size=s.dim) + 1j * rng.normal(size=s.dim)
         else:       # definite charge on every site
@@ -362,9 +363,9 @@ def run_infinite(case, npz):
         vecs.append(v / np.linalg.norm(v))
     out['state'] = [[cnum(x) for x in v] for v in vecs]
     if case['site'].get('conserve') is None:
-        psi = MPS.from_product_state(sites, vecs, 'infinite', dtype=complex, permute=False)
+        psi = MPS.from_product_state(psi_sites, vecs, 'infinite', dtype=complex, permute=False)
     else:       # indices of the sites' own (charge sorted) basis, in which the exported operator matrices are given
-        psi = MPS.from_product_state(sites, [int(np.argmax(np.abs(v))) for v in vecs], 'infinite', dtype=complex, permute=False)
+        psi = MPS.from_product_state(psi_sites, [int(np.argmax(np.abs(v))) for v in vecs], 'infinite', dtype=complex, permute=False)
     rec.run('expectation_value', lambda: out.__setitem__('expectation_value', cnum(A.expectation_value(psi))))
     rec.run('expectation_value_power', lambda: out.__setitem__('expectation_value_power', cnum(A.expectation_value_power(psi))))
     rec.run('expectation_value_TM', lambda: out.__setitem__('expectation_value_TM', cnum(A.expectation_value_TM(psi))))
